@@ -1,7 +1,7 @@
 CONFIG = {
     "id": "C04",
     "coq_targets": ["Model/DispatchInterp.v", "Gen/DispatchTable.v", "Proofs/DispatchTableProofs.v", "Gen/FormulasInfo.v", "Gen/FormulasAttr.v", "Gen/Formulas.v", "Proofs/FormulasInfoProofs.v", "Proofs/FormulasAttrCoreProofs.v", "Proofs/FormulasProofs.v",
-                    "Props/C04.v", "Model/HitCheck.v", "Model/HitTerms.v", "Model/DispatchCheck.v", "Proofs/DispatchProofs.v"],
+                    "Props/C04.v", "Model/HitCheck.v", "Model/HitTerms.v", "Model/DispatchCheck.v", "Proofs/DispatchProofs.v", "Model/StatsCheck.v"],
     "prop_files": ["Props/C04.v"],
     "gen": ["FormulasInfo", "FormulasAttr", "Formulas", "DispatchTable"],
     "components": [{
@@ -21,6 +21,14 @@ CONFIG = {
         "case_type": "case",
         "ops_path": [3],            # input = (catalog, valid units, attaches, events)
         "n_quick": 400, "n_thorough": 20000, "shard": 100,
+    }, {
+        # the stats snapshot a hit reads (info/stats.go is an anchor of C04): base attributes + modifier state, base
+        # maps never written by a snapshot, weaknesses as the union (Model/Stats.v, shared with C06:
+        # tools/props.d/C06.py describes the component)
+        "name": "stats", "modules": ["Model.Stats", "Model.StatsCheck"],
+        "check": "check_case", "monitor": "monitor_case", "model_out": "model_out",
+        "case_type": "case", "ops_path": [1],
+        "n_quick": 200, "n_thorough": 4000, "shard": 40,
     }],
     "rule": "2-4 units (id pool 1..4 plus one unregistered id; characters and enemies) with generated HP/ATK/DEF "
             "base/percent/flat/convert, crit chance/damage, damage bonuses, RES and PEN per element, damage taken per element, "
